@@ -417,14 +417,14 @@ func c06R3(c *Ctx, rule string) {
 						}
 						if src != nil {
 							// the destination under the name the frozen table knows it by (the carrier struct's fields may
-						// have been renamed)
-						name := fv.Name()
-						if fa, isFA := st.Addr.(*ssa.FieldAddr); isFA {
-							if on := namedOf(fa.X.Type()); on != nil {
-								name = canonFieldName(on, fv)
+							// have been renamed)
+							name := fv.Name()
+							if fa, isFA := st.Addr.(*ssa.FieldAddr); isFA {
+								if on := namedOf(fa.X.Type()); on != nil {
+									name = canonFieldName(on, fv)
+								}
 							}
-						}
-						got[name] = fmt.Sprintf("%s[%d:%d]", roleName(src), lo, hi)
+							got[name] = fmt.Sprintf("%s[%d:%d]", roleName(src), lo, hi)
 						}
 					}
 				}
